@@ -139,6 +139,9 @@ type seedMeta struct {
 // longer applies to the edited tree is skipped and reported.
 func selftest(prop string, rep *core.Report) {
 	dirs, _ := filepath.Glob(filepath.Join(core.VerifDir(), "seeded", "*", "meta.json"))
+	// hand-made breaking variants (positive controls; the existing tests may catch them too)
+	pdirs, _ := filepath.Glob(filepath.Join(core.VerifDir(), "positive", "*", "meta.json"))
+	dirs = append(dirs, pdirs...)
 	sort.Strings(dirs)
 	type job struct{ name, patch string }
 	var jobs []job
@@ -306,6 +309,9 @@ func mutant(args []string) int {
 	f := rep.Failing()
 	for _, o := range f {
 		fmt.Printf("%s [%s] %s at %s\n", o.Status, o.Rule, o.Key, o.Pos)
+		if os.Getenv("TV_DETAIL") != "" {
+			fmt.Println("    " + o.Detail)
+		}
 	}
 	if len(f) > 0 {
 		return 3
